@@ -5,10 +5,29 @@ Open Scope Z_scope.
 
 (* ---- Service.GetJournals: the partition limit *)
 Lemma get_journals_f_spec {A : Type} (maxl : nat) (visit acc : list A) :
-  (length acc < maxl)%nat ->
-  get_journals_f maxl visit acc = if (length acc + length visit <? maxl)%nat then Some (acc ++ visit) else None.
+  (length acc <= maxl)%nat ->
+  get_journals_f maxl visit acc = if (length acc + length visit <=? maxl)%nat then Some (acc ++ visit) else None.
 Proof.
   revert acc. induction visit as [|x tl IH]; intros acc H; cbn [get_journals_f length].
+  - rewrite Nat.add_0_r, app_nil_r. destruct (Nat.leb_spec (length acc) maxl); [reflexivity|lia].
+  - destruct (Nat.ltb_spec maxl (length (acc ++ [x]))) as [E|E].
+    + rewrite app_length in E. cbn in E. destruct (Nat.leb_spec (length acc + S (length tl)) maxl); [lia|reflexivity].
+    + rewrite IH by exact E.
+      rewrite app_length. cbn [length]. rewrite <- app_assoc. cbn [app].
+      replace (length acc + 1 + length tl)%nat with (length acc + S (length tl))%nat by lia. reflexivity.
+Qed.
+
+(* exactly maxl matching partitions are served, more are refused *)
+Lemma get_journals_spec {A : Type} (maxl : nat) (m : list A) :
+  get_journals maxl m = if (length m <=? maxl)%nat then Some m else None.
+Proof. unfold get_journals. rewrite get_journals_f_spec by (cbn; lia). reflexivity. Qed.
+
+(* the comparison before the repair refused exactly maxl partitions *)
+Lemma get_journals_f_eq_spec {A : Type} (maxl : nat) (visit acc : list A) :
+  (length acc < maxl)%nat ->
+  get_journals_f_eq maxl visit acc = if (length acc + length visit <? maxl)%nat then Some (acc ++ visit) else None.
+Proof.
+  revert acc. induction visit as [|x tl IH]; intros acc H; cbn [get_journals_f_eq length].
   - rewrite Nat.add_0_r, app_nil_r. destruct (Nat.ltb_spec (length acc) maxl); [reflexivity|lia].
   - destruct (Nat.eqb_spec (length (acc ++ [x])) maxl) as [E|E].
     + rewrite app_length in E. cbn in E. destruct (Nat.ltb_spec (length acc + S (length tl)) maxl); [lia|reflexivity].
@@ -17,24 +36,23 @@ Proof.
         replace (length acc + 1 + length tl)%nat with (length acc + S (length tl))%nat by lia. reflexivity.
       * rewrite app_length in *. cbn [length] in *. lia.
 Qed.
-
-Lemma get_journals_spec {A : Type} (maxl : nat) (m : list A) :
-  (0 < maxl)%nat -> get_journals maxl m = if (length m <? maxl)%nat then Some m else None.
-Proof. intros H. unfold get_journals. rewrite get_journals_f_spec by (cbn; lia). reflexivity. Qed.
+Lemma get_journals_eq_spec {A : Type} (maxl : nat) (m : list A) :
+  (0 < maxl)%nat -> get_journals_eq maxl m = if (length m <? maxl)%nat then Some m else None.
+Proof. intros H. unfold get_journals_eq. rewrite get_journals_f_eq_spec by (cbn; lia). reflexivity. Qed.
 
 (* ---- the visit with a journal that cannot be opened *)
 Lemma get_journals_of_all {A : Type} (opens : A -> bool) (maxl : nat) : forall visit acc,
   (forall x, In x visit -> opens x = true) -> get_journals_of opens maxl visit acc = get_journals_f maxl visit acc.
 Proof.
   induction visit as [|x tl IH]; intros acc H; [reflexivity|]. cbn [get_journals_of get_journals_f].
-  rewrite (H x (or_introl eq_refl)). destruct (Nat.eqb (length (acc ++ [x])) maxl); [reflexivity|].
+  rewrite (H x (or_introl eq_refl)). destruct (Nat.ltb maxl (length (acc ++ [x]))); [reflexivity|].
   apply IH. intros y Hy. apply H. right. exact Hy.
 Qed.
 Lemma get_journals_of_fail {A : Type} (opens : A -> bool) (maxl : nat) : forall visit acc x,
   In x visit -> opens x = false -> get_journals_of opens maxl visit acc = None.
 Proof.
   induction visit as [|y tl IH]; intros acc x Hin Hx; [destruct Hin|]. cbn [get_journals_of].
-  destruct (opens y) eqn:Ey; [|reflexivity]. destruct (Nat.eqb (length (acc ++ [y])) maxl); [reflexivity|].
+  destruct (opens y) eqn:Ey; [|reflexivity]. destruct (Nat.ltb maxl (length (acc ++ [y]))); [reflexivity|].
   destruct Hin as [->|Hin]; [congruence|]. exact (IH _ x Hin Hx).
 Qed.
 (* a cursor is never built over a subset: the result of the visit is everything that matches, or a refusal *)
@@ -43,7 +61,7 @@ Lemma get_journals_of_some {A : Type} (opens : A -> bool) (maxl : nat) : forall 
 Proof.
   induction visit as [|y tl IH]; intros acc l H; cbn [get_journals_of] in H.
   - injection H as <-. rewrite app_nil_r. split; [reflexivity|]. intros x [].
-  - destruct (opens y) eqn:Ey; [|discriminate]. destruct (Nat.eqb (length (acc ++ [y])) maxl); [discriminate|].
+  - destruct (opens y) eqn:Ey; [|discriminate]. destruct (Nat.ltb maxl (length (acc ++ [y]))); [discriminate|].
     destruct (IH _ _ H) as (-> & Ho). rewrite <- app_assoc. split; [reflexivity|]. intros x [<-|Hx]; [exact Ey|exact (Ho x Hx)].
 Qed.
 
@@ -56,14 +74,14 @@ Proof.
   unfold get_journals_r, get_journals_o. intros H. destruct (get_journals_of_some _ _ _ _ _ H) as (E & Ho). cbn [app] in E.
   split; [exact E|]. split; [rewrite E; exact Ho|]. intros x Hi Hr. rewrite E. apply filter_In. split; [exact Hi|]. rewrite Hr. reflexivity.
 Qed.
-Lemma get_journals_r_all {A : Type} (removed opens : A -> bool) (maxl : nat) snap : (0 < maxl)%nat ->
+Lemma get_journals_r_all {A : Type} (removed opens : A -> bool) (maxl : nat) snap :
   (forall x, In x snap -> removed x = false -> opens x = true) ->
-  (length (filter (fun x => negb (removed x)) snap) < maxl)%nat ->
+  (length (filter (fun x => negb (removed x)) snap) <= maxl)%nat ->
   get_journals_r removed opens maxl snap = Some (filter (fun x => negb (removed x)) snap).
 Proof.
-  intros Hm Ho Hl. unfold get_journals_r, get_journals_o. rewrite get_journals_of_all.
-  - change (get_journals_f maxl ?m []) with (get_journals maxl m). rewrite get_journals_spec by exact Hm.
-    destruct (Nat.ltb_spec (length (filter (fun x => negb (removed x)) snap)) maxl); [reflexivity|lia].
+  intros Ho Hl. unfold get_journals_r, get_journals_o. rewrite get_journals_of_all.
+  - change (get_journals_f maxl ?m []) with (get_journals maxl m). rewrite get_journals_spec.
+    destruct (Nat.leb_spec (length (filter (fun x => negb (removed x)) snap)) maxl); [reflexivity|lia].
   - intros x Hx. apply filter_In in Hx. destruct Hx as (Hi & Hr). apply Ho; [exact Hi|]. destruct (removed x); [discriminate|reflexivity].
 Qed.
 
@@ -663,8 +681,8 @@ Proof.
   induction m as [|[t q] tl IH]; cbn; [discriminate|]. destruct (Nat.eqb_spec t tag); [intros H; injection H as ->; subst; auto|auto].
 Qed.
 
-(* the cursor over 1..49 fresh sources at position p stands for the merge of what its sources deliver from there *)
-Lemma new_cursor_cinv (srcs : list (nat * leaf)) f p : srcs <> [] -> (length srcs < merge_limit)%nat ->
+(* the cursor over 1..50 fresh sources at position p stands for the merge of what its sources deliver from there *)
+Lemma new_cursor_cinv (srcs : list (nat * leaf)) f p : srcs <> [] -> (length srcs <= merge_limit)%nat ->
   Forall (fun s => fresh_leaf (snd s)) srcs -> pos_ok p ->
   exists c, new_cursor srcs f p = Some c /\ cu_n c = length srcs /\
     cinv leaf_rest (leaf_ok false) false f sett_l c (content leaf_rest false (cu_tree c)) /\
@@ -672,8 +690,8 @@ Lemma new_cursor_cinv (srcs : list (nat * leaf)) f p : srcs <> [] -> (length src
               forall s, In s srcs -> leaf_ok false (h (fst s) (snd s)) /\
                 (p = PHead -> h (fst s) (snd s) = l_set_pos 0 0 (snd s)) /\ (p = PTail -> h (fst s) (snd s) = l_set_pos MaxU64 MaxU32 (snd s)).
 Proof.
-  intros N Hl F Po. unfold new_cursor. rewrite get_journals_spec by (unfold merge_limit; lia).
-  destruct (Nat.ltb_spec (length srcs) merge_limit); [|lia].
+  intros N Hl F Po. unfold new_cursor. rewrite get_journals_spec.
+  destruct (Nat.leb_spec (length srcs) merge_limit); [|lia].
   destruct (build_tree_spec srcs N) as (t & E & Fr & L). rewrite E.
   set (h := match p with
             | PHead => fun (_ : nat) l => l_set_pos 0 0 l
